@@ -26,6 +26,7 @@ import (
 	"github.com/obolnetwork/charon/p2p"
 	"github.com/obolnetwork/charon/tbls"
 	"github.com/obolnetwork/charon/verifrt"
+	"google.golang.org/protobuf/proto"
 
 	"verifsim/kernel"
 	"verifsim/simnet"
@@ -62,7 +63,7 @@ func ceremony(ctx context.Context, c *kernel.Ctx, cer int, net *simnet.Net) {
 	if cer == 0 {
 		stragglersNext = 0
 	}
-	stragglers := stragglersNext // sent by earlier ceremonies of this run
+	stragglers := stragglersNext      // sent by earlier ceremonies of this run
 	n := 3 + verifrt.Intn("cfg", 6)   // 3..8
 	t := 2 + verifrt.Intn("cfg", n-1) // 2..n
 	if c.Tier != "thorough" && n > 6 {
@@ -108,7 +109,7 @@ func ceremony(ctx context.Context, c *kernel.Ctx, cer int, net *simnet.Net) {
 		sloppy = verifrt.Intn("cfg", n)
 		victim = (sloppy + 1 + verifrt.Intn("cfg", n-1)) % n
 		sloppyVal = verifrt.Intn("cfg", vals)
-		sloppyKind = verifrt.Intn("cfg", 3)
+		sloppyKind = verifrt.Intn("cfg", 5) // 3, 4: its round 2 / round 1 BROADCAST carries an extra cast (see below)
 	}
 	// A slow member (a quarter of the ceremonies): everything it sends takes up to slowMax (seconds, i.e.
 	// a sizeable fraction of a Pedersen phase; FROST has no phases) - late but never lost. Nodes then run
@@ -184,7 +185,7 @@ func ceremony(ctx context.Context, c *kernel.Ctx, cer int, net *simnet.Net) {
 			slowID = id
 		}
 	}
-	if sloppy >= 0 {
+	if sloppy >= 0 && sloppyKind < 3 {
 		net.Tap = func(e *simnet.Envelope) {
 			if e.Response || string(e.Proto) != "/charon/dkg/frost/2.0.0/round1/p2p" || e.From != ids[sloppy] || e.To != ids[victim] {
 				return
@@ -247,6 +248,43 @@ func ceremony(ctx context.Context, c *kernel.Ctx, cer int, net *simnet.Net) {
 		tp, err := dkg.VerifFrostTransport(h, peers, caster, t, vals)
 		if err != nil {
 			panic(err)
+		}
+		if i == sloppy && sloppyKind >= 3 {
+			// The faulty member's round 2 (kind 3) or round 1 (kind 4) broadcast - really signed by every member
+			// through the broadcast protocol - carries, after its own casts, one more cast for validator sloppyVal
+			// that names the VICTIM as its source (with the faulty member's own values). A member must never take
+			// another member's contribution from this message.
+			dkg.VerifWrapBroadcast(tp, func(real bcast.BroadcastFunc) bcast.BroadcastFunc {
+				return func(ctx context.Context, msgID string, msg proto.Message) error {
+					switch m := msg.(type) {
+					case *dkgpb.FrostRound2Casts:
+						if sloppyKind == 3 {
+							for _, cst := range m.GetCasts() {
+								if int(cst.GetKey().GetValIdx()) == sloppyVal {
+									extra := proto.Clone(cst).(*dkgpb.FrostRound2Cast)
+									extra.Key.SourceId = uint32(victim + 1)
+									m.Casts = append(m.Casts, extra)
+									verifrt.Fault("sloppy-peer:round2-cast-in-the-victims-name")
+									break
+								}
+							}
+						}
+					case *dkgpb.FrostRound1Casts:
+						if sloppyKind == 4 {
+							for _, cst := range m.GetCasts() {
+								if int(cst.GetKey().GetValIdx()) == sloppyVal {
+									extra := proto.Clone(cst).(*dkgpb.FrostRound1Cast)
+									extra.Key.SourceId = uint32(victim + 1)
+									m.Casts = append(m.Casts, extra)
+									verifrt.Fault("sloppy-peer:round1-cast-in-the-victims-name")
+									break
+								}
+							}
+						}
+					}
+					return real(ctx, msgID, msg)
+				}
+			})
 		}
 		nodes[i] = node{h: h, tp: tp}
 	}
